@@ -162,6 +162,8 @@ pub struct Quirks {
     pub other_carrier_alg: Option<String>,
     /// presented instead of the credential (arity faults)
     pub credential_override: Option<String>,
+    /// query carrier on a folding node: the X-Amz-* parameters travel in the form body, not the URL
+    pub auth_pairs_in_body: bool,
     /// raw bytes appended to the path / query on the wire (malformed escapes)
     pub path_suffix: Option<Vec<u8>>,
     pub path_prefix: Option<Vec<u8>>,
@@ -615,7 +617,8 @@ pub fn render(m: &Message, t: &mut Tape, o: &RenderOpts) -> Wire {
     // ---- query
     let mut all_pairs = l.url_pairs.clone();
     let q = &m.quirks;
-    {
+    let in_body = q.auth_pairs_in_body && m.auth.carrier == Carrier::Query && l.form_pairs.is_some();
+    if !in_body {
         // the authentication parameters may sit anywhere among the others, in their own order
         let ap = m.auth.query_pairs(true, q);
         let mut pos = 0usize;
@@ -747,12 +750,21 @@ pub fn render(m: &Message, t: &mut Tape, o: &RenderOpts) -> Wire {
             headers.push((n.clone(), v.clone()));
         }
     }
+    let mut body = l.body.clone();
+    if in_body {
+        // appended to the form body exactly as a client posting a presigned form would
+        let ap = spell_pairs(&m.auth.query_pairs(true, q), t, nquery, false);
+        if !body.is_empty() && !ap.is_empty() {
+            body.push(b'&');
+        }
+        body.extend(ap);
+    }
     Wire {
         method: l.method.clone(),
         target,
         version: l.version,
         headers,
-        body: l.body.clone(),
+        body,
     }
 }
 
